@@ -180,6 +180,44 @@ def rule_kinds(ctx: Ctx, repo: Repo) -> None:
         ctx.check(hs == K(want_self), "R-C12.1", f"{ST}.FunctionDefinition.has_self", f"a {want_kind} function {'has' if want_self else 'has no'} receiver parameter",
                   construct=f"{want_kind}: has_self={hs}")
     ctx.functions.update({f"{ST}.FunctionStub.render", f"{ST}.FunctionDefinition.has_self"})
+    # (d) within one process: the class attribute is looked up afresh for every stub (a module that was edited and
+    # re-imported, e.g. by a long-running tool or a second `stub` call, is described as it is now)
+    from . import codec_model as CM
+    kinds_of = {d: k for d, k, _, _ in DESCRIPTORS if d is not None}
+    pairs = [(a, b) for a in kinds_of for b in kinds_of if a != b][:6] + [("classmethod", None), (None, "staticmethod")]
+    nh = 0
+    for first, second in pairs:
+        def world_with(desc: Any) -> Any:
+            w = CM.World()
+            w.add("pkg.mod", "C", CM.cls("pkg.mod", "C"))
+            w.add("pkg.mod", "C.f", R("descriptor", type=K(desc)) if desc is not None else CM.func("pkg.mod", "C.f"))
+            return w
+
+        def hook2(call, fname, fval, args, kwargs, st):
+            if fname == "isinstance" and len(args) == 2 and isinstance(args[0], R) and args[0].kind in ("descriptor", "func"):
+                c = args[1]
+                nm = c.name.split(":")[-1].split(".")[-1] if isinstance(c, S) else None
+                return K(args[0].kind == "descriptor" and nm == args[0].fields["type"].v)
+            return None
+
+        outs = []
+        carry = None
+        for desc in (first, second):
+            sc = CM.CodecScenario(repo, ST, "FunctionKind.from_callable", world_with(desc))
+            base_hook = sc.ri.call_hook
+            sc.ri.call_hook = lambda call, fname, fval, args, kwargs, st, _b=base_hook: (hook2(call, fname, fval, args, kwargs, st) if hook2(call, fname, fval, args, kwargs, st) is not None else _b(call, fname, fval, args, kwargs, st))
+            bn = sc.ri.interp.on_name
+            sc.ri.interp.on_name = lambda name, st, _b=bn: S("mod:monkeytype.compat.cached_property") if name == "cached_property" else _b(name, st)
+            ps = fc.positional_params()
+            k, res = sc.result({ps[0]: S("class:monkeytype.stubs.FunctionKind"), ps[1]: R("func", __qualname__=K("C.f"), __module__=K("pkg.mod"))}, carry=carry)
+            carry = sc.last_state
+            outs.append((k, res))
+        nh += 1
+        want2 = S(FKIND + (kinds_of[second] if second is not None else "INSTANCE"))
+        ctx.check(outs[1] == ("return", want2), "R-C12.1", fc.fq,
+                  "the kind of a method is read from the class as it is now, also after an earlier stub of the same name in the process",
+                  construct=f"C.f was a {first or 'plain method'}, now a {second or 'plain method'}: second classification {outs[1][1]}, expected {want2}")
+    ctx.floor("R-C12.1", "classify-edit-classify histories", nh, 6)
     # R-C12.2 the receiver flag passed to update_signature_args is the definition's own has_self
     fct = repo.fn(ST, "FunctionDefinition.from_callable_and_traced_types")
     ctx.functions.add(fct.fq)
